@@ -84,8 +84,9 @@ Definition run_pdu_a (op : Z) (a : args) : args :=
               (do r <- eof_of_args a;
                do b <- eof_pack (fst r);
                do p2 <- eof_unpack (b ++ lst 5 a);
-               do e <- eof_eqb p2 (fst r);
-               Ok ([b2z e] :: eof_fields p2 ++ [pack_res_a (eof_pack p2)]))
+               (* [1] / [0], or [2; class] when __eq__ itself raises *)
+               let e := match eof_eqb p2 (fst r) with Ok e => [b2z e] | Err x => [2; err_code x] end in
+               Ok (e :: eof_fields p2 ++ [pack_res_a (eof_pack p2)]))
   (* constructor, then a history of fault_location setter calls: fields, packet_len, pack twice *)
   | 1305 => ret (fun p => eof_fields p ++ [[eof_packet_len p]; pack_res_a (eof_pack p); pack_res_a (eof_pack p)])
               (do r <- eof_of_args a; eof_apply (fst r) (skipn 5 a))
